@@ -3,15 +3,16 @@ CONSTANTS
   Masters = {1, 2, 3, 4}
   Nodes = {1}
   Rules <- AllRules
-  Cfg <- CfgPoS3
+  Cfg <- CfgPoA3
   MaxLive = 2
-  MaxNum = 5
+  MaxNum = 1
   MaxNow = 2
-  MaxTx = 1
+  MaxTx = 2
   MaxBal = 2
-  Kinds <- KindsStakeQ
+  Kinds <- KindsMember
   Ords <- OrdId4
   Window = TRUE
+  NumOf <- Flat
 INVARIANT TypeOK
 INVARIANT CacheCoherent
 INVARIANT CacheExact
